@@ -22,7 +22,7 @@ use http::header::{self, HeaderValue};
 use ent::*;
 use sl::*;
 use body::{Body, BodyStream};
-broadcast use {fmtw::vec_len_bound, fmtw::vec_ranges_len_bound, hm::lemma_hmap_push, hm::lemma_hmap_empty};
+broadcast use {http::lemma_without_push, fmtw::vec_len_bound, fmtw::vec_ranges_len_bound, hm::lemma_hmap_push, hm::lemma_hmap_empty};
 
 //@fn src/lib.rs :: fn as_u64 props=C01 rules=R24
 fn as_u64(len: usize) -> (r: u64)
@@ -433,6 +433,7 @@ fn serve_inner<D, E>(ent: &EntityRef<D, E>, method: &Method, req_hdrs: &HeaderMa
         /*@C15 #head_conforms unless=get_conforms*/ method.k == 1 ==> conforms(ent, method, req_hdrs.m@, out, final(calls)@),
 //@body
 //@ at_start: proof { reveal_strlit("{}"); reveal_strlit("bytes */{}"); reveal_strlit("bytes {}-{}/{}"); }
+//@ implicit C03,C13 from "range::parse("
 //@ loop 1: invariant k_ <= ranges.len(), /*@C03 #estimate_is_80_per_part_plus_ranges*/ (acc_o matches Some(a) ==> a as int == est_sum(ranges@, k_ as int)) && (acc_o.is_none() ==> est_sum(ranges@, k_ as int) > u64::MAX), decreases ranges.len() - k_,
 //@end
 
@@ -464,6 +465,7 @@ fn serve<D, E>(entity: EntityRef<D, E>, req: &http::Request, calls: &mut Ghost<S
 //@body
 //@end
 
+//@auto_helpers src/serving.rs rules=R22,R23
 //@lits
 //@canary_false
 } // verus!
